@@ -22,12 +22,13 @@ theorem idOk_iff (pw id : Nat) : idOk pw id = true ↔ id ≠ 0 ∧ (if pw = 2 t
 
 /-- id at the front of a body -/
 theorem parseIdFront_enc (site : String) (pw id : Nat) (rest : List Nat) (hpw : pw = 2 ∨ pw = 4)
-    (hr : if pw = 2 then id < 65536 else id < 4294967296) :
+    (hr : if pw = 2 then id < 65536 else id < 4294967296) (hnz : id ≠ 0) :
     parseIdFront site pw (encId pw id ++ rest) = .ok id pw := by
   unfold parseIdFront
   have hl := encId_length pw id hpw
   rw [if_neg (by simp [hl])]
-  rw [slice_zero_append _ _ _ _ _ hl.symm, beNat_encId pw id hpw hr]
+  rw [slice_zero_append _ _ _ _ _ hl.symm, allZero_encId pw id hpw hnz hr]
+  simp only [Bool.false_eq_true, if_false, beNat_encId pw id hpw hr]
 
 /-! ### PINGREQ / PINGRESP / DISCONNECT v3.1.1 -/
 
@@ -143,7 +144,7 @@ theorem Unsuback3.roundtrip (pw : Nat) (p : Unsuback3) (hpw : pw = 2 ∨ pw = 4)
     simp only at hr hrl hil hmax
     subst rl
     unfold Unsuback3.parse Unsuback3.body
-    have := parseIdFront_enc "v3_1_1::unsuback::parse:data[0..buffer_size]" pw pid [] hpw hr
+    have := parseIdFront_enc "v3_1_1::unsuback::parse:data[0..buffer_size]" pw pid [] hpw hr hnz
     rw [List.append_nil] at this
     rw [this, bind_ok, vbiOf_le _ _ _ hmax, hil]
 
@@ -166,7 +167,7 @@ theorem Suback3.roundtrip (pw : Nat) (p : Suback3) (hpw : pw = 2 ∨ pw = 4) (h 
     simp only at hr hrl hil hmax hne hco hbl
     subst hrl
     unfold Suback3.parse Suback3.body
-    rw [parseIdFront_enc _ pw pid codes hpw hr, bind_ok, sliceFrom_append _ _ _ _ _ hil.symm]
+    rw [parseIdFront_enc _ pw pid codes hpw hr hnz, bind_ok, sliceFrom_append _ _ _ _ _ hil.symm]
     rw [if_neg (by simp [hco]), if_neg (by simpa using hne), vbiOf_le _ _ _ hmax]
     simp only [List.length_append, hil]
 
@@ -193,7 +194,7 @@ theorem Unsubscribe3.roundtrip (pw : Nat) (p : Unsubscribe3) (hpw : pw = 2 ∨ p
     simp only at hr hrl hil hmax hne hts hbl htl
     subst hrl
     unfold Unsubscribe3.parse Unsubscribe3.body
-    rw [parseIdFront_enc _ pw pid _ hpw hr, bind_ok, sliceFrom_append _ _ _ _ _ hil.symm]
+    rw [parseIdFront_enc _ pw pid _ hpw hr hnz, bind_ok, sliceFrom_append _ _ _ _ _ hil.symm]
     rw [htl, topicsLoop_enc topics _ hts (Nat.le_refl _), bind_ok]
     rw [if_neg (by simpa using hne), vbiOf_le _ _ _ hmax]
     simp only [List.length_append, hil, htl]
@@ -221,7 +222,7 @@ theorem Subscribe3.roundtrip (pw : Nat) (p : Subscribe3) (hpw : pw = 2 ∨ pw = 
     simp only at hr hrl hil hmax hne hes hbl hel
     subst hrl
     unfold Subscribe3.parse Subscribe3.body
-    rw [parseIdFront_enc _ pw pid _ hpw hr, bind_ok, sliceFrom_append _ _ _ _ _ hil.symm]
+    rw [parseIdFront_enc _ pw pid _ hpw hr hnz, bind_ok, sliceFrom_append _ _ _ _ _ hil.symm]
     rw [hel, entriesLoop_enc entries _ hes (Nat.le_refl _), bind_ok]
     rw [if_neg (by simpa using hne), vbiOf_le _ _ _ hmax]
     simp only [List.length_append, hil, hel]
@@ -281,7 +282,7 @@ theorem Codes5.roundtrip (rcOk : Nat → Bool) (fh pw : Nat) (p : Codes5) (hpw :
     subst hpl
     unfold Codes5.parse Codes5.body
     dsimp only
-    rw [parseIdFront_enc _ pw pid _ hpw hr, bind_ok]
+    rw [parseIdFront_enc _ pw pid _ hpw hr hnz, bind_ok]
     rw [parsePropsAt_enc _ validateAckProps _ props codes pw hil.symm hpo hplm (validateProps_none _ _ _ hpa), bind_ok]
     simp only
     have hd : ∀ (α : Type) (k : List Nat → PRes α),
@@ -330,7 +331,7 @@ theorem Unsubscribe5.roundtrip (pw : Nat) (p : Unsubscribe5) (hpw : pw = 2 ∨ p
     subst hpl
     unfold Unsubscribe5.parse Unsubscribe5.body
     dsimp only
-    rw [parseIdFront_enc _ pw pid _ hpw hr, bind_ok]
+    rw [parseIdFront_enc _ pw pid _ hpw hr hnz, bind_ok]
     rw [parsePropsAt_enc _ validateUnsubscribeProps _ props _ pw hil.symm hpo hplm (validateProps_none _ _ _ hpa), bind_ok]
     simp only
     have hd : ∀ (α : Type) (k : List Nat → PRes α),
@@ -378,7 +379,7 @@ theorem Subscribe5.roundtrip (pw : Nat) (p : Subscribe5) (hpw : pw = 2 ∨ pw = 
     subst hpl
     unfold Subscribe5.parse Subscribe5.body
     dsimp only
-    rw [parseIdFront_enc _ pw pid _ hpw hr, bind_ok]
+    rw [parseIdFront_enc _ pw pid _ hpw hr hnz, bind_ok]
     rw [parsePropsAt_enc _ validateSubscribeProps _ props _ pw hil.symm hpo hplm (validateProps_none _ _ _ hpa), bind_ok]
     simp only
     have hd : ∀ (α : Type) (k : List Nat → PRes α),
@@ -426,7 +427,7 @@ theorem Connack5.roundtrip (p : Connack5) (h : allOk p.checks = true) :
     dsimp only
     rw [if_neg (by simp [hvl]; omega)]
     simp only [List.cons_append, List.nil_append]
-    rw [idx_cons_zero, idx_cons_succ, idx_cons_zero, if_neg (by simp [hrc])]
+    rw [idx_cons_zero, if_neg (by omega), idx_cons_succ, idx_cons_zero, if_neg (by simp [hrc])]
     have := parsePropsAt_enc "v5_0::connack::parse:props" validateConnackProps [flags, rc] props [] 2 rfl hpo hplm
       (validateProps_none _ _ _ hpa)
     simp only [List.cons_append, List.nil_append] at this
@@ -670,15 +671,23 @@ theorem encOptId_length (pw : Nat) (pid : Option Nat) (hpw : pw = 2 ∨ pw = 4) 
   | none => rfl
   | some id => simp [encOptId, encId_length pw id hpw]
 
-theorem parsePublishHead_enc (pw flags : Nat) (topic : List Nat) (pid : Option Nat) (rest : List Nat)
+theorem parsePublishHead_enc (v5 : Bool) (pw flags : Nat) (topic : List Nat) (pid : Option Nat) (rest : List Nat)
     (hpw : pw = 2 ∨ pw = 4) (hq : flags / 2 % 4 ≤ 2) (hiff : (flags / 2 % 4 == 0) = pid.isNone)
-    (hpid : ∀ id, pid = some id → idOk pw id = true) (ht : strOk topic = true) :
-    parsePublishHead pw flags (encStr topic ++ (encOptId pw pid ++ rest))
+    (hpid : ∀ id, pid = some id → idOk pw id = true) (ht : strOk topic = true)
+    (hnw : noWildcard topic = true) (hne : v5 = false → topic.isEmpty = false) :
+    parsePublishHead v5 pw flags (encStr topic ++ (encOptId pw pid ++ rest))
       = .ok (topic, pid) (strSize topic + (if pid.isSome then pw else 0)) := by
   obtain ⟨hl, hu⟩ := (strOk_iff topic).1 ht
   unfold parsePublishHead
   dsimp only
   rw [if_neg (by omega), sliceFrom_zero, decStr_enc topic _ hl hu, bind_ok]
+  have hcond : ((!v5 && topic.isEmpty) || topic.contains 35 || topic.contains 43) = false := by
+    simp only [noWildcard, Bool.not_eq_true', Bool.or_eq_false_iff] at hnw
+    cases v5 with
+    | true => rw [hnw.1, hnw.2]; rfl
+    | false => rw [hne rfl, hnw.1, hnw.2]; rfl
+  rw [hcond]
+  simp only [Bool.false_eq_true, if_false]
   cases pid with
   | none =>
     simp only [Option.isNone_none, beq_iff_eq] at hiff
@@ -700,13 +709,15 @@ def Publish3.body (pw : Nat) (p : Publish3) : List Nat := encStr p.topic ++ (enc
 theorem publishHeadChecks_iff (pw fh : Nat) (topic : List Nat) (pid : Option Nat) (aliasOk : Bool)
     (h : allOk (publishHeadChecks pw fh topic pid aliasOk) = true) :
     (fh / 16 = 3 ∧ fh < 64) ∧ fh / 2 % 4 ≤ 2 ∧ strOk topic = true ∧ ((fh / 2 % 4 == 0) = pid.isNone)
-      ∧ (∀ id, pid = some id → idOk pw id = true) := by
+      ∧ (∀ id, pid = some id → idOk pw id = true) ∧ noWildcard topic = true
+      ∧ (aliasOk = false → topic.isEmpty = false) := by
   simp only [allOk, publishHeadChecks, List.all_cons, List.all_nil, Bool.and_true, Bool.and_eq_true, beq_iff_eq,
     decide_eq_true_eq] at h
-  obtain ⟨hfh, hq, _, _, hts, hiff, hpid⟩ := h
-  refine ⟨hfh, hq, hts, ?_, ?_⟩
+  obtain ⟨hfh, hq, hne, hnw, hts, hiff, hpid⟩ := h
+  refine ⟨hfh, hq, hts, ?_, ?_, hnw, ?_⟩
   · cases pid <;> simp_all
   · intro id e; subst e; simpa using hpid
+  · intro ha; subst ha; simpa using hne
 
 theorem Publish3.roundtrip (pw : Nat) (p : Publish3) (hpw : pw = 2 ∨ pw = 4) (h : allOk (p.checks pw) = true) :
     Publish3.parse pw (p.fh % 16) (p.body pw) = .ok p (p.body pw).length
@@ -715,7 +726,7 @@ theorem Publish3.roundtrip (pw : Nat) (p : Publish3) (hpw : pw = 2 ∨ pw = 4) (
   unfold Publish3.checks at h
   rw [allOk_append] at h
   obtain ⟨hh, h3⟩ := h
-  obtain ⟨⟨hf1, hf2⟩, hq, hts, hiff, hpid⟩ := publishHeadChecks_iff _ _ _ _ _ hh
+  obtain ⟨⟨hf1, hf2⟩, hq, hts, hiff, hpid, hnw, hne⟩ := publishHeadChecks_iff _ _ _ _ _ hh
   simp only [allOk, List.all_cons, List.all_nil, Bool.and_true, Bool.and_eq_true, beq_iff_eq,
     decide_eq_true_eq] at h3
   obtain ⟨hrl, hmax⟩ := h3
@@ -730,7 +741,8 @@ theorem Publish3.roundtrip (pw : Nat) (p : Publish3) (hpw : pw = 2 ∨ pw = 4) (
     have hqf : fh % 16 / 2 % 4 = fh / 2 % 4 := by omega
     unfold Publish3.parse Publish3.body
     dsimp only
-    rw [parsePublishHead_enc pw (fh % 16) topic pid payload hpw (by omega) (by rw [hqf]; exact hiff) hpid hts, bind_ok]
+    rw [parsePublishHead_enc false pw (fh % 16) topic pid payload hpw (by omega) (by rw [hqf]; exact hiff) hpid hts hnw
+      (fun _ => hne rfl), bind_ok]
     dsimp only
     have hcur : strSize topic + (if pid.isSome = true then pw else 0) = (encStr topic ++ encOptId pw pid).length := by
       rw [List.length_append, encStr_length, hol]
@@ -761,7 +773,7 @@ theorem Publish5.roundtrip (pw : Nat) (p : Publish5) (hpw : pw = 2 ∨ pw = 4) (
   unfold Publish5.checks at h
   rw [allOk_append, allOk_append, propsChecks_iff] at h
   obtain ⟨⟨hh, hpo, hpa, hpl, hplm⟩, h3⟩ := h
-  obtain ⟨⟨hf1, hf2⟩, hq, hts, hiff, hpid⟩ := publishHeadChecks_iff _ _ _ _ _ hh
+  obtain ⟨⟨hf1, hf2⟩, hq, hts, hiff, hpid, hnw, hne⟩ := publishHeadChecks_iff _ _ _ _ _ hh
   simp only [allOk, List.all_cons, List.all_nil, Bool.and_true, Bool.and_eq_true, beq_iff_eq,
     decide_eq_true_eq] at h3
   obtain ⟨hrl, hmax⟩ := h3
@@ -781,7 +793,8 @@ theorem Publish5.roundtrip (pw : Nat) (p : Publish5) (hpw : pw = 2 ∨ pw = 4) (
     have hpos := vbiSize_pos props.size
     unfold Publish5.parse Publish5.body
     dsimp only
-    rw [parsePublishHead_enc pw (fh % 16) topic pid _ hpw (by omega) (by rw [hqf]; exact hiff) hpid hts, bind_ok]
+    rw [parsePublishHead_enc true pw (fh % 16) topic pid _ hpw (by omega) (by rw [hqf]; exact hiff) hpid hts hnw
+      (fun h => by simp at h), bind_ok]
     have hcur : strSize topic + (if pid.isSome = true then pw else 0) = (encStr topic ++ encOptId pw pid).length := by
       rw [List.length_append, encStr_length, hol]
     rw [if_pos (by simp only [List.length_append, encStr_length, hol, hvl]; omega)]
